@@ -93,9 +93,12 @@ void SNAP::write_serialization(uint8_t* buffer, uint32_t total_sz) {
         Constants::Ethernet::e flag = Internals::pdu_flag_to_ether_type(
             inner_pdu()->pdu_type()
         );
-        snap_.eth_type = Endian::host_to_be(
-            static_cast<uint16_t>(flag)
-        );
+        // Keep the current type if we don't know the inner PDU's one
+        if (flag != Constants::Ethernet::UNKNOWN) {
+            snap_.eth_type = Endian::host_to_be(
+                static_cast<uint16_t>(flag)
+            );
+        }
     }
     stream.write(snap_);
 }
